@@ -6,6 +6,8 @@ Import ListNotations.
 Definition holds (c : tcase) (l : list tr) : list string :=
   (* besides wrong data: aborting or stalling a transfer although the peer only lost, duplicated,
      delayed or reordered packets also means that the bytes are not delivered *)
-  filter (has_tag ["C01:"; "C09:unexpected_error_packet"; "C02:retransmission"; "C02:ends_while_waiting"]%string)
+  filter (has_tag ["C01:"; "C09:unexpected_error_packet"; "C02:retransmission"; "C02:ends_while_waiting";
+                   (* a transfer that takes the internal-error path does not deliver either *)
+                   "C09:internal_error_path"]%string)
          (monitor c l).
 Definition entry := tftp_entry validb holds proj_client_packets.
